@@ -234,12 +234,17 @@ def render_status(world, p, tid=None):
     cal = p.cpus_allowed_list
     if cal is None:
         cal = "0-%d" % (ncpu - 1) if ncpu > 1 else "0"
-    a(b"Cpus_allowed_list:\t" + cal.encode())
+    if "nocpuslist" not in p.status_extra:       # (the line appeared in 2.6.24)
+        a(b"Cpus_allowed_list:\t" + cal.encode())
     a(b"Mems_allowed:\t1")
     a(b"Mems_allowed_list:\t0")
     if "noctx" not in p.status_extra:
         a(b"voluntary_ctxt_switches:\t%d" % p.vctx)
         a(b"nonvoluntary_ctxt_switches:\t%d" % p.nvctx)
+    if "x86tail" in p.status_extra:
+        # x86-64 kernels >= 6.6 built with user shadow stacks print two more lines at the very end
+        a(b"x86_Thread_features:\t")
+        a(b"x86_Thread_features_locked:\t")
     return b"\n".join(lines) + b"\n"
 
 
